@@ -1,6 +1,154 @@
-/- C10 — model not written yet (stub so that the driver target exists). -/
-namespace Nitime.C10
+/-
+C10 — executable model of the univariate AR estimators and their spectrum / simulator
+(`nitime/algorithms/autoregressive.py`: AR_est_YW, AR_est_LD, AR_psd; `nitime/utils.py`:
+autocorr, ar_generator; `nitime/algorithms/spectral.py`: freq_response).  Core Lean only.
 
-def handle (_args : List String) : String := "bad-op"
+Every function is written once over `Scalar K`; the driver runs `K = CF` (complex binary64),
+`Props/C10.lean` proves the theorems for `K = ℂ` of the same definitions.
+
+External calls, by documented semantics: `fftconvolve` (autocorr) = the direct lagged sum;
+`scipy.linalg.toeplitz(c)` = Hermitian Toeplitz (first row `conj c`); `scipy.linalg.solve` =
+a parameter `solve` (the driver plugs in Gauss–Jordan elimination `Mat.solveVec`);
+`scipy.signal.freqz(b, a, worN=n, whole)` = ratio of the two polynomials in `exp(-1j w_k)`,
+`w_k = k·(π or 2π)/n`; `scipy.signal.lfilter(b, a, v)` = direct-form recursion.
+-/
+import Nitime.Model.ARBase
+
+namespace Nitime.C10
+open Nitime.AR Nitime.AR.Scalar Nitime.Proto
+
+variable {K : Type} [Scalar K]
+
+/-- `utils.autocorr(x)[k]` for a length-`n` signal: `(1/n) Σ_m x[m+k]·conj x[m]` -/
+def autocorrDirect (x : Nat → K) (n k : Nat) : K :=
+  sumRange (n - k) (fun m => x (m + k) *. conj (x m)) /. ofNat n
+
+/-! ### AR_est_LD -/
+
+/-- loop state: `w[1..p]`, the code's `b`, and `w_k` -/
+structure LDSt (K : Type) where
+  w : List K
+  b : K
+  wk : K
+
+/-- `b = rxx[0].real; w_k = rxx[1] / b; w[1] = w_k` -/
+def ldInit (r : Nat → K) : LDSt K :=
+  let b := re (r 0)
+  let wk := r 1 /. b
+  ⟨[wk], b, wk⟩
+
+/-- body of `while p <= order` -/
+def ldStep (r : Nat → K) (p : Nat) (s : LDSt K) : LDSt K :=
+  -- b *= 1 - (w_k * w_k.conj()).real
+  let b := s.b *. (one -. re (s.wk *. conj s.wk))
+  -- w_k = (rxx_m[p] - (w[1:p] * rxx_m[1:p][::-1]).sum()) / b
+  let acc := sumRange (p - 1) fun i => s.w.getD i zero *. r (p - 1 - i)
+  let wk := (r p -. acc) /. b
+  -- w[1:p] = w[1:p] - w_k * w[1:p][::-1].conj();  w[p] = w_k
+  let w := (List.range (p - 1)).map
+      (fun i => s.w.getD i zero -. wk *. conj (s.w.getD (p - 2 - i) zero)) ++ [wk]
+  ⟨w, b, wk⟩
+
+/-- state when the loop has finished order `p ≥ 1` -/
+def ldLoop (r : Nat → K) : Nat → LDSt K
+  | 0 => ldInit r
+  | 1 => ldInit r
+  | p + 2 => ldStep r (p + 2) (ldLoop r (p + 1))
+
+/-- `AR_est_LD(x, order, rxx=r)`: `(w[1:], b)` after the final `b *= 1 - |w_k|²` -/
+def arLD (r : Nat → K) (order : Nat) : List K × K :=
+  let s := ldLoop r order
+  (s.w, s.b *. (one -. re (s.wk *. conj s.wk)))
+
+/-! ### AR_est_YW -/
+
+/-- entry (k, i) of `toeplitz(r[:p])`: `r[k-i]` on and below the diagonal, `conj r[i-k]` above -/
+def toepEntry (r : Nat → K) (k i : Nat) : K := if i ≤ k then r (k - i) else conj (r (i - k))
+
+def toeplitzH (r : Nat → K) (p : Nat) : List (List K) :=
+  (List.range p).map fun k => (List.range p).map fun i => toepEntry r k i
+
+/-- `AR_est_YW(x, order, rxx=r)` with `linalg.solve` a parameter -/
+def arYW (solve : List (List K) → List K → List K) (r : Nat → K) (order : Nat) : List K × K :=
+  let T := toeplitzH r order
+  let y := (List.range order).map fun k => r (k + 1)
+  let ak := solve T y
+  -- sigma_v = r_m[0].real - np.dot(r_m[1:].conj(), ak).real
+  let sigma := re (r 0) -. re (sumRange order fun k => conj (r (k + 1)) *. ak.getD k zero)
+  (ak, sigma)
+
+/-! ### AR_psd / freq_response -/
+
+/-- `scipy.signal.freqz(b, a, worN=n, whole=whole)[1]` -/
+def freqz (b a : List K) (whole : Bool) (n : Nat) : List K :=
+  (List.range n).map fun k => polyEval b (phasor whole k n) /. polyEval a (phasor whole k n)
+
+/-- number of grid points `freq_response` asks for -/
+def realN (nFreqs : Nat) (onesided : Bool) : Nat := if onesided then nFreqs / 2 + 1 else nFreqs
+
+/-- `AR_psd(ak, sigma_v, n_freqs, sides)[1]` -/
+def arPsd (ak : List K) (sigma : K) (nFreqs : Nat) (onesided : Bool) : List K :=
+  let hw := freqz [sqrtRe sigma] (one :: ak.map neg) (!onesided) (realN nFreqs onesided)
+  hw.map fun h =>
+    let p := re (h *. conj h)
+    if onesided then ofNat 2 *. p else p
+
+/-! ### ar_generator -/
+
+/-- `lfilter([b0], a, v)` with `a[0] = 1`: `u[n] = b0·v[n] − Σ_{k≥1} a[k]·u[n−k]` -/
+def lfilter1 (b0 : K) (a : List K) (v : List K) : List K :=
+  v.foldl (fun (u : List K) vn =>
+    let n := u.length
+    let fb := sumRange (min n (a.length - 1)) fun k => a.getD (k + 1) zero *. u.getD (n - 1 - k) zero
+    u ++ [b0 *. vn -. fb]) []
+
+/-- `ar_generator(N, sigma, coefs, drop_transients, v)` with `v` supplied
+(`len v = N + drop_transients`): returns `(u[drop:], v[drop:])` -/
+def arGenerator (sigma : K) (coefs : List K) (drop : Nat) (v : List K) : List K × List K :=
+  let u := lfilter1 (sqrtRe sigma) (one :: coefs.map neg) v
+  (u.drop drop, v.drop drop)
+
+/-! ### line protocol -/
+
+def fnOf (l : List CF) : Nat → CF := fun i => l.getD i ⟨0.0, 0.0⟩
+
+def solveCF (T : List (List CF)) (y : List CF) : List CF := Mat.solveVec T y
+
+def showEst (r : List CF × CF) : String := s!"ok {showCList r.1} {showCList [r.2]}"
+
+/-- the first `order+1` autocorrelation lags of `x` (what `utils.autocorr(x)[:order+1]` holds) -/
+def acLags (x : List CF) (order : Nat) : List CF :=
+  (List.range (order + 1)).map fun k => autocorrDirect (fnOf x) x.length k
+
+def handle (args : List String) : String :=
+  match args with
+  | ["autocorr", nl, xs] => match nl.toNat?, parseCList? xs with
+    | some nl, some x => "ok " ++ showCList ((List.range nl).map fun k => autocorrDirect (fnOf x) x.length k)
+    | _, _ => "bad-op"
+  | ["ld", o, rs] => match o.toNat?, parseCList? rs with
+    | some o, some r => if o = 0 ∨ r.length < o + 1 then "err IndexError" else showEst (arLD (fnOf r) o)
+    | _, _ => "bad-op"
+  | ["ldx", o, xs] => match o.toNat?, parseCList? xs with
+    | some o, some x => if o = 0 ∨ x.length < o + 1 then "err IndexError" else showEst (arLD (fnOf (acLags x o)) o)
+    | _, _ => "bad-op"
+  | ["yw", o, rs] => match o.toNat?, parseCList? rs with
+    | some o, some r => if o = 0 ∨ r.length < o + 1 then "err ValueError" else showEst (arYW solveCF (fnOf r) o)
+    | _, _ => "bad-op"
+  | ["ywx", o, xs] => match o.toNat?, parseCList? xs with
+    | some o, some x => if o = 0 ∨ x.length < o + 1 then "err ValueError" else showEst (arYW solveCF (fnOf (acLags x o)) o)
+    | _, _ => "bad-op"
+  | ["psd", one, nf, sg, aks] => match nf.toNat?, parseCList? sg, parseCList? aks with
+    | some nf, some [sg], some ak =>
+      let os := one = "1"
+      let n := realN nf os
+      let w := (List.range n).map fun k => CF.gridW (!os) k n
+      "ok " ++ showFloatList w ++ " " ++ showFloatList ((arPsd ak sg nf os).map CF.re)
+    | _, _, _ => "bad-op"
+  | ["gen", d, sg, cs, vs] => match d.toNat?, parseCList? sg, parseCList? cs, parseCList? vs with
+    | some d, some [sg], some c, some v =>
+      let r := arGenerator sg c d v
+      "ok " ++ showCList r.1 ++ " " ++ showCList r.2
+    | _, _, _, _ => "bad-op"
+  | _ => "bad-op"
 
 end Nitime.C10
